@@ -53,7 +53,7 @@ struct XCompare : Engine {
     static std::vector<RV> leaves(bool reduced) {
         double e = DBL_EPSILON; std::vector<RV> l = { RV::mk(RV::Null), RV::mk(RV::True), RV::number(1), RV::number(1 + 2 * e), RV::string("s"), RV::number(INFINITY) };
         if (!reduced) { RV raw = RV::mk(RV::Raw); raw.str = "s";
-            for (auto& x : std::vector<RV>{ RV::mk(RV::False), RV::number(0), RV::number(nextafter(1.0, 2.0)), RV::number(1e300), RV::number(nextafter(1e300, INFINITY)), RV::number(0x1.8p-1022), RV::number(0x1.8p-1022 + 2 * 0x1p-1074), RV::number(5e-324), RV::number(NAN), RV::number(-1), RV::string("t"), RV::string(""), raw }) l.push_back(x); }
+            for (auto& x : std::vector<RV>{ RV::mk(RV::False), RV::number(0), RV::number(nextafter(1.0, 2.0)), RV::number(1e300), RV::number(nextafter(1e300, INFINITY)), RV::number(0x1.8p-1022), RV::number(0x1.8p-1022 + 2 * 0x1p-1074), RV::number(5e-324), RV::number(NAN), RV::number(-1), RV::number(3.0), RV::number(nextafter(3.0, 0.0)), RV::string("t"), RV::string(""), raw }) l.push_back(x); }
         return l;
     }
     void build(const std::string& stage) {
